@@ -161,6 +161,32 @@ pub fn run(ctx: &mut Ctx) {
         let t = format!("{}{}", rd.text, r.pick(&["あ", "🎈", "é", "»", "🎈⟧"]));
         judge_input(ctx, &t, &sp, &cfg, "ast-multibyte-tail");
     }
+    // ---- exotic delimiters and tag-name configurations (totality only): delimiters that are
+    // quotes, '=', '/', spaces, line breaks, prefixes of each other; empty / identical / odd tag names
+    let exotic: [(&str, &str); 14] = [
+        ("\n", "\n"), (" ", " "), ("a", "a"), ("<", "<"), ("<<", "<"), ("<", "<<"), ("'", "\""),
+        ("=", "="), ("/", "/"), ("</", ">"), ("<", "/>"), ("  ", "\n"), ("é", "é"), ("🎈", "\t"),
+    ];
+    let odd_names: [(&str, &str); 6] = [("", ""), ("x", "x"), ("/", "/x"), ("a b", "c"), ("tl", ""), ("=", "'")];
+    let total: u64 = if quick { 160_000 } else { 3_000_000 };
+    for i in (shard..total).step_by(n as usize) {
+        if ctx.past(0.95) {
+            break;
+        }
+        let mut r = Rng::for_case(seed, 14, i);
+        let (ds, de) = exotic[(i as usize / 16) % exotic.len()];
+        let (tl, mk) = if r.chance(1, 2) { *r.pick(&odd_names) } else { ("tl", "m") };
+        let sp = Sp::new(ds, de, tl, mk);
+        let mut atoms = tokenizer_atoms(ds, de);
+        for name in [tl, mk, "z"] {
+            atoms.push(format!("{ds}{name} name='feat-a' to='2000-01-01 00:00:00'{de}"));
+            atoms.push(format!("{ds}{name} unwrap-block name=\"feat-a\"{de}"));
+            atoms.push(format!("{ds}/{name}{de}"));
+        }
+        let len = 1 + r.below(10);
+        let s: String = (0..len).map(|_| r.pick(&atoms).as_str()).collect();
+        judge_input(ctx, &s, &sp, &cfg, "exotic-delimiters");
+    }
     // ---- deep nesting
     if shard as usize % 4 == 0 {
         let depths: &[usize] = if quick { &[50, 400, 2000] } else { &[50, 400, 2000, 5000] };
